@@ -88,13 +88,47 @@ def rand_derive(rng, cur, onames, pnames, live):
     return {'op': op}
 
 
+def bigwalk(rec, b, rng):
+    """Definitions with 70-150 names per axis: unions, intersections, take, bulk adds (few steps, large values)."""
+    import corpus
+    onames = [f'o{i}' for i in range(150)]
+    pnames = [f'p{i}' for i in range(140)]
+    rec.reset(b)
+
+    def big_def(lo, hi, plo, phi):
+        objs, props = onames[lo:hi], pnames[plo:phi]
+        return {'objs': objs, 'props': props,
+                'cells': [[o, p] for o in objs for p in props if (hash_free(o, p) + lo) % 5 == 0]}
+
+    def hash_free(o, p):
+        return int(o[1:]) * 7 + int(p[1:]) * 3
+    rec.new(1, big_def(0, 100, 0, 80))
+    rec.new(2, big_def(50, 150, 40, 140))
+    rec.new(3, {'objs': [], 'props': [], 'cells': []})
+    rec.op(3, {'op': 'union_update', 'other': 1, 'ignore': False})
+    rec.op(3, {'op': 'ior', 'other': 2, 'ignore': False})
+    rec.op(3, {'op': 'union_update', 'other': 2, 'ignore': True})
+    rec.derive(1, {'op': 'union', 'other': 2, 'ignore': True}, 4)
+    rec.derive(2, {'op': 'or', 'other': 1, 'ignore': False}, 5)
+    rec.derive(1, {'op': 'intersection', 'other': 2, 'ignore': True}, 6)
+    rec.op(1, {'op': 'add_object', 'o': 'znew', 'names': pnames[70:110]})
+    rec.op(1, {'op': 'set_property', 'p': 'ynew', 'names': onames[90:140]})
+    rec.derive(1, {'op': 'take', 'objects': {'given': True, 'names': onames[95:20:-1]},
+                   'properties': {'given': True, 'names': pnames[75:5:-3]}, 'reorder': True}, 7)
+    rec.op(6, {'op': 'intersection_update', 'other': 4, 'ignore': True})
+    rec.op(4, {'op': 'remove_empty_properties'})
+    rec.op(2, {'op': 'iand', 'other': 1, 'ignore': False})
+
+
 def walk(rec, b, rng, steps, big):
+    if b % 40 == 5:
+        return bigwalk(rec, b, rng)
     if big:
         onames = [f'o{i}' for i in range(5)] + ['o\u00e4\u0416', 's1', 's2']
         pnames = [f'p{i}' for i in range(5)] + ['p\u00fc \u65e5', 's1', 's2']
     else:
-        onames = ['a', 'b', 'c', 's']
-        pnames = ['x', 'y', 'z', 's']
+        onames = ['a', 'b', 'c', 's', 'caf\u00e9', 'cafe\u0301']
+        pnames = ['x', 'y', 'z', 's', '\u00c5', '\u212b']
     rec.reset(b)
     nexth = 1
     for _ in range(rng.randint(1, 3)):
